@@ -314,3 +314,27 @@ reg('C03',
     '(table data), order of a directional bond between two aromatic atoms. Three deliberate tolerances/repairs of the reader are known findings keyed by call site.',
     'bounded exhaustive enumeration of strings (token sequences, field products, single edits) on the real reader vs an independent reader',
     'DESIGN.md s5 C03')
+
+
+# additions of the last strengthening round (wave e), appended to the descriptions above
+_ADD = {
+    'C01': 'Families added later: substituted allenes, tri/tetrasubstituted double bonds, even cumulenes, isotopic-H stereocentres (RDKit spellings are used only where RDKit carries the stereo kind), '
+           'several ring-bearing components in one molecule, fused / bridged / spiro polycycles.',
+    'C07': 'For targets with several components get_automorphism_mapping must return exactly the products of the automorphisms of the single components, every map injective.',
+    'C09': 'Isotope x radical x charge are also driven together (four elements), since the query mask combines them in one word.',
+    'C10': 'Even cumulenes with cis/trans labels and substituted allenes are part of the stereo family.',
+    'C11': 'Atoms carrying two or three of isotope / radical / charge at once; files written in two sessions (the second with append=True) for every ordered pair of records.',
+    'C12': 'The ring-axis / spiro family must keep both marks when read (hand-asserted stereogenic); spellings with atom maps that run against the writing order are judged like every other spelling.',
+    'C16': 'Exhaustive mode with a single pattern on several inputs: the product sets are exactly the non-empty subsets of the reaction sites. A configuration requested by the replacement: every '
+           'spelling of one replacement (labelled atom opening or closing a ring of the replacement) gives the same stereoisomer, through Transformer and Reactor.',
+    'C17': 'The array forms of both fingerprints are compared with the bit sets over lengths x active bits, called positionally and by keyword.',
+    'C18': 'Every tabulated valence state must lie inside the fixed-width fields of both codecs (hydrogens 0..4 in the matcher word, 0..6 in the pack, charge -4..4).',
+    'C19': 'The normalisation block covers 10 calls incl. canonicalize(keep_kekule=True), canonicalize(fix_tautomers=False) and implicify_hydrogens.',
+    'C20': 'The text scope also holds isotopic-H double bonds and bonds of unspecified type (RDKit -> chython must give order 8 and the molecule the library reads from the same text; the way back is not defined).',
+    'C14': 'Atoms with explicit and implicit hydrogens at once, ring bonds that become coordinate bonds and unbalanced zwitter-ions are in the special cases; idempotence and equivariance are required up to '
+           'equivalent localised forms when the skeleton has equivalent atoms; 11 further in-place operations (kekule, thiele, clean_*, remove_*, saturate, fix_stereo ...) are checked for cache coherence only.',
+    'C03': 'The curated list also holds direction marks on the opening / closing / both ring-closure digits, stereo marks on mapped atoms, the interdependent and the isotopic-H families.',
+    'C02': 'Isotopic hydrogen atoms on stereo elements, even cumulenes and substituted allenes are part of the families.',
+}
+for _k, _v in _ADD.items():
+    CHECKS[_k]['text'] += ' ' + _v
